@@ -10,6 +10,7 @@ import DropletsVerif.Driver.C19
 import DropletsVerif.Driver.C14
 import DropletsVerif.Driver.C08
 import DropletsVerif.Driver.C20
+import DropletsVerif.Driver.C03
 
 open DV.Drv
 
@@ -25,6 +26,7 @@ def dispatch (line : String) : String :=
   | "c14" :: args => handleC14 args
   | "c08" :: args => handleC08 args
   | "c20" :: args => handleC20 args
+  | "c03" :: args => handleC03 args
   | "c15" :: args => handleC15 args
   | _ => "bad-op"
 
